@@ -1785,11 +1785,20 @@ impl SocketAddress for unix::net::SocketAddr {
     }
 
     unsafe fn init(storage: MaybeUninit<Self::Storage>, length: u32) -> Self {
-        debug_assert!(length as usize >= size_of::<libc::sa_family_t>());
+        if (length as usize) < size_of::<libc::sa_family_t>() {
+            // No address at all, e.g. a message received from a socket that
+            // isn't bound to an address.
+            // SAFETY: unnamed (zero length) address is valid.
+            return unix::net::SocketAddr::from_pathname("").unwrap();
+        }
         let family = unsafe { ptr::addr_of!((*storage.as_ptr()).sun_family).read() };
         debug_assert!(family == libc::AF_UNIX as libc::sa_family_t);
         let path_ptr = unsafe { ptr::addr_of!((*storage.as_ptr()).sun_path) };
         let length = length as usize - (path_ptr.addr() - storage.as_ptr().addr());
+        // NOTE: for a pathname that fills `sun_path` completely the kernel
+        // reports a length one larger than what fits (it counts the
+        // terminating NUL byte it couldn't write).
+        let length = length.min(size_of_val(unsafe { &*path_ptr }));
         // SAFETY: the kernel ensures that at least `length` bytes are
         // initialised.
         let path = unsafe { slice::from_raw_parts::<u8>(path_ptr.cast(), length) };
@@ -1801,6 +1810,9 @@ impl SocketAddress for unix::net::SocketAddr {
             }
         }
 
+        // The kernel includes the terminating NUL byte of a pathname in the
+        // length, which is not part of the path.
+        let path = path.split(|b| *b == 0).next().unwrap_or(path);
         unix::net::SocketAddr::from_pathname(Path::new(OsStr::from_bytes(path)))
             // Fallback to an unnamed address.
             // SAFETY: unnamed (zero length) address is valid.
